@@ -46,6 +46,21 @@ CHECKS = {
         note="<=5 schemes from a 22-scheme cheap palette, categories admin/staff (+ an unknown one), <=40 ops, well-formed configurations only. "
              "Exact vary_rounds ranges are not modelled (only: inside window and hard limits). Trusted: PolicyModel (refmodels/policy.py), extractor.",
         design_ref="DESIGN.md section 4 and Appendix B, C04"),
+    "C06": dict(
+        level="exploration",
+        technique="deterministic simulation with the library's random source as the owned seam (recording / scripted / extreme SimRandom on passlib.utils.rng and secrets._sysrand): conditional-bijection check between recorded draws and produced values, bit-flip fault injection at the source, exhaustive scripted enumeration for spaces <= 2^16, Chernoff-bounded statistics",
+        text="The single SystemRandom object every generator in passlib draws from (and libpass' secrets source) is replaced by a simulator-owned "
+             "source that records each request and can be scripted. For every produced value (random bytes/strings, salts of 15 hashers x "
+             "admissible sizes read back by the independent extractor, TOTP keys, application secrets, generated words/phrases, django_disabled "
+             "suffixes, libpass salts) the run sees draws and value side by side: size and alphabet; the draws must be able to cover the declared "
+             "space; when draw space and value space have the same size, uniformity is equivalent to injectivity, which is checked over the "
+             "sample, by flipping single bits of a recorded answer and replaying (the value must change), and -- for spaces <= 2^16 -- over ALL "
+             "draws of the source (exhaustive sub-case); otherwise per-position frequencies and bit correlation between adjacent symbols with "
+             "Chernoff/7-sigma bounds; requested entropy is carried by the draws; all-zero / all-one / counter / single-bit sources never yield a "
+             "malformed value; a CryptContext refuses every way of pinning a salt and keeps drawing fresh ones. Weaker fit: no schedule or "
+             "fault decides C06; the technique contributes ownership of the random-source seam.",
+        note="Uniformity is relative to the owned source. Statistical cells: Chernoff tail bound 1e-13 / 7 sigma. AppWallet salts cannot run (no 'cryptography').",
+        design_ref="DESIGN.md section 4, C06"),
     "C08": dict(
         level="exploration",
         technique="deterministic simulation with storage-fault injection on durable records (byte substitution/loss/duplication/insertion, torn tail, misdirected record, field swap, NUL/non-ASCII, bytes for text); thorough tier enumerates the single-fault neighbourhood; independent field extractor as oracle",
